@@ -5,5 +5,7 @@ CONSTANTS
   PS <- PFew
   AS <- AFew
   GS <- GFew
+  QU <- Q1
+  KS <- KFew
 ACTION_CONSTRAINT EdgeOut
 CHECK_DEADLOCK FALSE
